@@ -16,7 +16,9 @@ var asciiWords = []string{"pet", "Pet", "PET", "store", "order", "item", "user",
 var initialismTokens = []string{"id", "Id", "ID", "iD", "http", "Http", "HTTP", "https", "HTTPS", "Https", "url", "URL", "Url", "ip", "IP", "IPv4", "ipv4", "IPV4", "ipv6", "api", "API", "json", "JSON", "Json", "uuid", "UUID", "ui", "UI", "uid", "vm", "VM", "xml", "ascii", "ASCII", "utf8", "UTF8", "sql", "tls", "eof", "oai", "OAI", "xss", "xsrf", "acl", "cpu", "ttl", "HTTPServer", "HTTPSserver", "userID", "userId", "UserIDs", "IDs", "ids", "URLs", "APIKey", "apiKEY"}
 var goKeywords = []string{"break", "default", "func", "interface", "select", "case", "defer", "go", "map", "struct", "chan", "else", "goto", "package", "switch", "const", "fallthrough", "if", "range", "type", "continue", "for", "import", "return", "var"}
 var goPredeclared = []string{"string", "error", "nil", "true", "false", "len", "int", "int64", "bool", "byte", "any", "new", "make", "append", "float64", "uint", "iota", "cap", "copy", "panic", "print", "rune", "init", "main"}
-var generatorNames = []string{"timeout", "Timeout", "TIMEOUT", "time-out", "context", "Context", "HTTPRequest", "http request", "HTTPClient", "httpClient", "params", "Params", "o", "r", "err", "res", "result", "data", "i", "values", "body", "Body", "formats", "route", "m", "payload", "Payload", "validate", "Validate", "principal", "rw", "producer", "response", "Response", "request", "reader", "writer", "swag", "strfmt", "errors", "models", "operations", "runtime", "client", "fmt", "json", "handler", "Handler", "api", "server", "test", "linux", "windows", "arm", "js", "x_test", "lab test", "node-js", "amd64", "vendor", "internal"}
+var generatorNames = []string{"timeout", "Timeout", "TIMEOUT", "time-out", "context", "Context", "HTTPRequest", "http request", "HTTPClient", "httpClient", "params", "Params", "o", "r", "err", "res", "result", "data", "i", "values", "body", "Body", "formats", "route", "m", "payload", "Payload", "validate", "Validate", "principal", "rw", "producer", "response", "Response", "request", "reader", "writer", "swag", "strfmt", "errors", "models", "operations", "runtime", "client", "fmt", "json", "handler", "Handler", "api", "server", "test", "linux", "windows", "arm", "js", "x_test", "lab test", "node-js", "amd64", "vendor", "internal",
+	// tags shaped like a Go major-version suffix, in any case; words go build reads as GOOS / GOARCH at the end of a file name
+	"v1", "V2", "v10", "V1beta1", "version1", "hurd", "nacl", "zos", "riscv", "sparc", "ppc", "s390", "amd64p32", "wasm", "wasip1", "plan9", "aix", "ios", "loong64", "mips64le", "arm64be", "sparc64", "s390x", "darwin", "freebsd", "android", "illumos", "solaris", "386"}
 var replacePunct = []string{"@", "&", "|", "$", "!", "-", "_"}
 var otherPunct = []string{".", ",", ":", ";", "+", "#", "*", "=", "(", ")", "[", "]", "<", ">", "'", "\"", "`", "^", "?", " ", "\t", "\\", "/", "~", "%", "{", "}"}
 var digitsTok = []string{"0", "1", "9", "42", "007", "2fa", "3d"}
